@@ -264,6 +264,28 @@ static void engine_fault_impl(RunCtx& cx) {
                     ok = false;
                 }
             }
+            // a recovery attempt that threw may still have switched to its destination (rotate_output completes the switch before it
+            // reports): no block was ever written to that output, so it must have received no data at all
+            if (ok && attempts == 2) {
+                std::string raw0;
+                bool have = false;
+                if (p.plan.sw.fd_output) { auto ino = F.fd_inode("rec0"); if (ino) { raw0 = ino->data; have = ino->opens == 0; } }
+                else if (F.exists(std::string("/sim/rec0") + p.ext)) { raw0 = F.get(std::string("/sim/rec0") + p.ext); have = true; }
+                if (have) {
+                    std::string plain0, err0;
+                    bool dec0 = true;
+                    if (p.plan.sw.compression == 1) dec0 = model::gunzip_exact(raw0, plain0, err0);
+                    else if (p.plan.sw.compression == 2) dec0 = model::unxz_exact(raw0, plain0, err0);
+                    else plain0 = raw0;
+                    if (!dec0 || !plain0.empty()) {
+                        std::string d = "the destination of the first (throwing) recovery rotate_output holds " + std::to_string(dec0 ? plain0.size() : raw0.size()) + " bytes although no block was written to it";
+                        V("I16/data-in-output-without-blocks", d);
+                        cx.violation("C02", "C02/I03/nonempty-without-blocks-after-write-fault", d);
+                        cx.violation("C13", "C13/I12/output-after-write-fault-not-self-contained", d);
+                        cx.violation("C10", "C10/I17/byte-count-after-write-fault", d + " (the calls since it was opened returned 0 bytes)");
+                    } else cx.ctr->add("probe.intermediate_recovery_output_empty");
+                }
+            }
             if (ok) {
                 std::string raw;
                 if (p.plan.sw.fd_output) { auto ino = F.fd_inode(rec_name.substr(3)); raw = ino ? ino->data : ""; }
